@@ -29,7 +29,7 @@ static void threadHook(int site, unsigned long, unsigned long) {
         if (t_rng && g_perturb.load(std::memory_order_relaxed) && t_rng->below(400) == 0) sched_yield();
         return;
     }
-    unsigned long s = g_seq.fetch_add(1);
+    unsigned long s = g_seq.fetch_add(1, std::memory_order_relaxed);   // relaxed: the monitor must not introduce happens-before edges between the threads it watches
     if (t_stamps) { Stamp st = {s, site}; t_stamps->push_back(st); }
     if (t_rng && g_perturb.load(std::memory_order_relaxed)) { int k = (int)t_rng->below(10); if (k < 4) sched_yield(); else if (k < 7) usleep((useconds_t)t_rng->below(200)); }
 }
@@ -48,6 +48,9 @@ static uint64_t job(uint64_t seed, long round, int tid, const std::string& dir, 
     {
         ezc3d::c3d c;
         { Param p("RATE"); p.set(std::vector<float>(1, 100.f)); c.parameter("POINT", p); Param a("RATE"); a.set(std::vector<float>(1, 100.f * ns)); c.parameter("ANALOG", a); }
+        // a description of thread-dependent length on the first POINT parameter: every later record (POINT:DATA_START among them) then sits at a
+        // different byte offset in every thread's file, so state shared between concurrent saves cannot go unnoticed by coincidence
+        { Param u("USED", std::string((size_t)(1 + (tid * 7 + (int)(round % 5)) % 60), 'u')); u.set(0); u.lock(); c.parameter("POINT", u); }
         for (int i = 0; i < np; ++i) c.point("P" + std::to_string(i) + "_" + std::to_string(tid));
         for (int i = 0; i < nc; ++i) c.analog("A" + std::to_string(i));
         if (np + nc > 0) for (int f = 0; f < nf; ++f) {
